@@ -24,6 +24,8 @@ pub enum LoadError {
     IO(#[from] std::io::Error),
     #[error("failed to parse price DB entry: {0}")]
     Parse(#[from] parse::ParseError),
+    #[error("price DB entry of {0} on {1} has a zero rate")]
+    ZeroRate(String, NaiveDate),
 }
 
 /// Source of the price information.
@@ -125,6 +127,13 @@ impl<'ctx> PriceRepositoryBuilder<'ctx> {
         let content = std::fs::read_to_string(path)?;
         for entry in parse::price::parse_price_db(&parse::ParseOptions::default(), &content) {
             let (_, entry) = entry?;
+            // a zero rate has no reciprocal, so it cannot be stored as a price.
+            if entry.rate.value.value.is_zero() {
+                return Err(LoadError::ZeroRate(
+                    entry.target.into_owned(),
+                    entry.datetime.date(),
+                ));
+            }
             // we cannot skip commodities we don't know, as the price might be indirected in DB.
             // For example, if we have only AUD and JPY in Ledger,
             // price DB might just expose AUD/EUR EUR/CHF CHF/JPY.
